@@ -207,7 +207,17 @@ PROPS["C16"] = {
     "assumptions": ["HTTP/1.1, one exchange per connection", "hang limit 15 s real time per exchange"],
 }
 
-PENDING = "check not built yet in this session (planned, see DESIGN.md section 4); not claimed until its harness exists"
-NOT_APPLICABLE = {pid: PENDING for pid in ["C%02d" % i for i in range(1, 21)]}
+PROPS["C20"] = {
+    "harness": "stacksim", "test": "TestC20", "quick_s": 30, "thorough_s": 600, "batch": 50,
+    "rule": "one evaluation = one simulated run: a random stack (depth 1-6) over {stream, trace, connlimit, ratelimit, cbreaker, roundrobin, rebalancer, buffer} around a scripted innermost handler (status explicit or implicit, multi-valued headers, 0-4 body chunks with Flush between, or Hijack); "
+            "in half of the runs exactly one layer is driven into its intervening state by the simulator (connection limiter filled by requests parked inside the handler, bucket drained at one instant, breaker tripped by a served history of 502s plus clock, pool emptied, request body over the buffer maximum); "
+            "oracle = differential against the bare handler for non-intervening runs (one invocation, same status, headers, body, flush points, hijacked bytes; Flusher/Hijacker reachable) and documented status + body + no invocation for intervening runs; non-trivial = depth >= 2; distinct = run digest",
+    "technique": "deterministic simulation: generated middleware compositions and handler behaviours; intervening states produced by the simulator (parked in-flight requests, simulated clock, served histories); differential oracle against the bare handler",
+    "level_text": "seeded search over composition order/depth, handler behaviours and which layer intervenes; sampled, not exhaustive",
+    "level_note": "trusted: simrt, rapid; the client side is a strict in-memory ResponseWriter with Flusher/Hijacker/CloseNotifier (flush boundaries and the hijacked connection are observed at that writer, not on a wire)",
+    "assumptions": ["flush points are not compared when a buffer is in the stack (it buffers by design)"],
+}
+
+NOT_APPLICABLE = {}
 NOT_APPLICABLE["C19"] = ("pure function of one request's RemoteAddr/Host/header to a token: no schedule, clock, fault, I/O or multi-party behaviour for a "
                          "simulation to decide; input generation alone would not be this technique (DESIGN.md section 5)")
